@@ -53,6 +53,13 @@ where
     for x in [F::max_value(), F::min_positive_value(), F::nan(), F::infinity(), F::neg_infinity()] {
         c.push(Val::Float(x));
     }
+    // floats at the ends of the integer type's range (its maximum need not be representable) and
+    // their neighbours
+    let (fmax, fmin) = (F::from(I::max_value()).unwrap(), F::from(I::min_value()).unwrap());
+    let (up, down) = (F::one() + F::epsilon(), F::one() - F::epsilon());
+    for x in [fmax, fmin, fmax * up, fmax * down, fmin * up, fmin * down] {
+        c.push(Val::Float(x));
+    }
     c.push(Val::Bool(true));
     c.push(Val::Bool(false));
     c.push(Val::Array(SmallVec::new()));
@@ -229,7 +236,7 @@ pub fn def() -> PropDef {
                 rule: "i32/f64: all catalogue cells; judged where the documented rules demand an error value (overflow, division/remainder by zero, MIN % -1, -MIN, abs(MIN), invalid casts of NaN/inf/out-of-range floats, out-of-range shifts and powers, wrong operand kinds, error operands); non-trivial = a boundary operand",
                 kind: Kind::Indexed { n: n_catalogue, f: error_cells, exhaustive: true },
             },
-            SubCheck { name: "totality_i32_f64", rule: "no panic: every operator x every ordered pair of 47 special operands, Val<i32,f64>", kind: Kind::Indexed { n: n_tot, f: totality_i32_f64, exhaustive: true } },
+            SubCheck { name: "totality_i32_f64", rule: "no panic: every operator x every ordered pair of 53 special operands (incl. the floats at the ends of the integer type's range and their neighbours), Val<i32,f64>", kind: Kind::Indexed { n: n_tot, f: totality_i32_f64, exhaustive: true } },
             SubCheck { name: "totality_i64_f32", rule: "no panic: the same for Val<i64,f32>", kind: Kind::Indexed { n: n_tot, f: totality_i64_f32, exhaustive: true } },
             SubCheck { name: "totality_i8_f32", rule: "no panic: the same for Val<i8,f32>", kind: Kind::Indexed { n: n_tot, f: totality_i8_f32, exhaustive: true } },
             SubCheck { name: "totality_i16_f64", rule: "no panic: the same for Val<i16,f64>", kind: Kind::Indexed { n: n_tot, f: totality_i16_f64, exhaustive: true } },
